@@ -25,8 +25,15 @@
      PCall    the application's disconnect handler
      PFin     finally: self.manager.disconnect(sid, namespace) = basic_disconnect
      PEnv     if eio_sid in self.environ: del self.environ[eio_sid]; if exc: raise exc
+   and, in the threaded server as it is now (locked code, granularity GLocked):
+     PPre     disconnect(): self.manager.can_disconnect(sid, namespace), outside the lock
+     PAcq     with self._disconnect_lock:  (then PCheck and PMark while holding it; the lock is
+              released after pre_disconnect, or by the `return` of a failed check)
 
-   Thread granularity: a scheduling choice moves one task by one micro step.  Asyncio
+   Thread granularity: a scheduling choice moves one task by one micro step (GLocked: unless the
+   task stands at PAcq while another task is at PCheck / PMark, i.e. holds the lock; GThread:
+   the code before the lock was added, which goes from PLookup / the start straight to PCheck).
+   Asyncio
    granularity: the same micro steps, grouped into the blocks between two suspension points;
    the only awaits that suspend are the send and the handler invocation (`await
    manager.can_disconnect()` / `await manager.disconnect()` are coroutines without an inner
@@ -35,9 +42,16 @@
 From VT Require Export Manager.Manager.
 Open Scope N_scope.
 
-(* GLocked = thread granularity of the REPAIRED code: is_connected + pre_disconnect form one
-   critical section (a lock, or a test-and-mark inside the manager); not the pinned tree *)
+(* GLocked = thread granularity of the threaded server as it is now: Server.disconnect() and
+   Server._handle_disconnect() perform is_connected + pre_disconnect while holding
+   self._disconnect_lock (a task that wants the lock cannot move while another task holds it;
+   every access, inside or outside the lock, is still its own step, and disconnect() first
+   makes one unlocked check through can_disconnect).
+   GThread = thread granularity of the code BEFORE that repair (no lock): kept as the
+   documentation of what the repair removed, and as the model of a tree from which the lock
+   has been taken out again.  GAsync = the asyncio server (unchanged by the repair). *)
 Inductive gran := GThread | GAsync | GLocked.
+Definition locked_code (g : gran) : bool := match g with GLocked => true | _ => false end.
 
 Inductive cause :=
 | CApi (sid ns : str)
@@ -53,7 +67,9 @@ Inductive pc :=
 | PCall (sid : str)
 | PFin (sid : str) (hexc : option exn)
 | PEnv
-| PDone.
+| PDone
+| PPre (sid : str)             (* locked code, disconnect(): the unlocked can_disconnect check *)
+| PAcq (osid : option str).    (* locked code: with self._disconnect_lock (acquire) *)
 
 Record task := mkTask {
   t_cause : cause;
@@ -73,6 +89,7 @@ Inductive lbl :=
 | LDisc (sid ns : str)
 | LEnv (eio : str) (present : bool)
 | LRaise (e : exn)                 (* the exception escapes the task *)
+| LAcquire                         (* the task has taken self._disconnect_lock *)
 | LOther (n : nat).                (* an access the model does not know; never produced *)
 
 Record cfg := mkCfg {
@@ -98,9 +115,9 @@ Definition disc_frame (ns : str) : str :=
 
 Definition set_pc (t : task) (p : pc) : task := mkTask (t_cause t) p (t_ns t) (t_todo t) (t_exc t).
 
-Definition spawn (k : cause) : task :=
+Definition spawn (lk : bool) (k : cause) : task :=
   match k with
-  | CApi sid ns => mkTask k (PCheck (Some sid)) ns [] None
+  | CApi sid ns => mkTask k (if lk then PPre sid else PCheck (Some sid)) ns [] None
   | CClient _ ns => mkTask k PLookup ns [] None
   | CLoss _ _ => mkTask k PInit [] [] None
   end.
@@ -126,7 +143,7 @@ Definition handler_outcome (R : list str) (sid : str) : option exn :=
   if memb sid R then Some RuntimeError else None.
 
 (* ---- one access ---- *)
-Definition micro (R : list str) (m : mgr) (env : list str) (t : task)
+Definition micro (lk : bool) (R : list str) (m : mgr) (env : list str) (t : task)
   : mgr * list str * task * list lbl :=
   let ns := t_ns t in
   match t_pc t with
@@ -136,7 +153,8 @@ Definition micro (R : list str) (m : mgr) (env : list str) (t : task)
       (m, env, t', LNamespaces nsl :: l)
   | PLookup =>
       match eio_of (t_cause t) with
-      | Some eio => let r := sid_from_eio m eio ns in (m, env, set_pc t (PCheck r), [LLookup eio ns r])
+      | Some eio => let r := sid_from_eio m eio ns in
+                    (m, env, set_pc t (if lk then PAcq r else PCheck r), [LLookup eio ns r])
       | None => (m, env, set_pc t PDone, [])                 (* not reachable from spawn *)
       end
   | PCheck osid =>
@@ -166,6 +184,10 @@ Definition micro (R : list str) (m : mgr) (env : list str) (t : task)
       | None => (m, env, set_pc t PDone, [])                 (* not reachable from spawn *)
       end
   | PDone => (m, env, t, [])
+  | PPre sid =>
+      if is_connected m (Some sid) ns then (m, env, set_pc t (PAcq (Some sid)), [LCheck (Some sid) ns true])
+      else let '(t', l) := end_ns t None in (m, env, t', LCheck (Some sid) ns false :: l)
+  | PAcq osid => (m, env, set_pc t (PCheck osid), [LAcquire])
   end.
 
 (* ---- asyncio: run on until the task stands in front of a suspension point ---- *)
@@ -175,42 +197,35 @@ Definition suspended (p : pc) : bool :=
 (* an upper bound on the accesses left before the next suspension point *)
 Definition measure (m : mgr) (t : task) : nat :=
   match t_pc t with
-  | PInit => 3 * List.length (get_namespaces m) + 6
-  | PLookup => 3 * List.length (t_todo t) + 5
-  | PCheck _ => 3 * List.length (t_todo t) + 4
-  | PMark _ => 3 * List.length (t_todo t) + 3
-  | PFin _ _ => 3 * List.length (t_todo t) + 3
+  | PInit => 4 * List.length (get_namespaces m) + 7
+  | PLookup | PPre _ => 4 * List.length (t_todo t) + 6
+  | PAcq _ => 4 * List.length (t_todo t) + 5
+  | PCheck _ => 4 * List.length (t_todo t) + 4
+  | PMark _ => 4 * List.length (t_todo t) + 3
+  | PFin _ _ => 4 * List.length (t_todo t) + 3
   | PEnv => 1
   | _ => 0
   end%nat.
 
-Fixpoint cont (R : list str) (fuel : nat) (m : mgr) (env : list str) (t : task)
+Fixpoint cont (lk : bool) (R : list str) (fuel : nat) (m : mgr) (env : list str) (t : task)
   : mgr * list str * task * list lbl :=
   match fuel with
   | O => (m, env, t, [])
   | S f =>
       if suspended (t_pc t) then (m, env, t, []) else
-      let '(m1, env1, t1, l1) := micro R m env t in
-      let '(m2, env2, t2, l2) := cont R f m1 env1 t1 in
+      let '(m1, env1, t1, l1) := micro lk R m env t in
+      let '(m2, env2, t2, l2) := cont lk R f m1 env1 t1 in
       (m2, env2, t2, l1 ++ l2)
   end.
 
-Definition block (R : list str) (m : mgr) (env : list str) (t : task)
+Definition block (lk : bool) (R : list str) (m : mgr) (env : list str) (t : task)
   : mgr * list str * task * list lbl :=
-  let '(m1, env1, t1, l1) := micro R m env t in
-  let '(m2, env2, t2, l2) := cont R (measure m1 t1) m1 env1 t1 in
+  let '(m1, env1, t1, l1) := micro lk R m env t in
+  let '(m2, env2, t2, l2) := cont lk R (measure m1 t1) m1 env1 t1 in
   (m2, env2, t2, l1 ++ l2).
 
-(* the repaired check-then-mark: a task that has passed its check marks in the same step *)
-Definition locked (R : list str) (m : mgr) (env : list str) (t : task)
-  : mgr * list str * task * list lbl :=
-  let '(m1, env1, t1, l1) := micro R m env t in
-  match t_pc t1 with
-  | PMark _ => let '(m2, env2, t2, l2) := micro R m1 env1 t1 in (m2, env2, t2, l1 ++ l2)
-  | _ => (m1, env1, t1, l1)
-  end.
-
-Definition move (g : gran) := match g with GThread => micro | GAsync => block | GLocked => locked end.
+Definition move (g : gran) :=
+  match g with GThread => micro false | GAsync => block false | GLocked => micro true end.
 
 (* ---- configurations and schedules ---- *)
 Fixpoint upd {A} (l : list A) (i : nat) (x : A) : list A :=
@@ -220,11 +235,24 @@ Fixpoint upd {A} (l : list A) (i : nat) (x : A) : list A :=
   | y :: r, S j => y :: upd r j x
   end.
 
-(* a schedule is a list of task indices; a finished or non-existent task is a no-op *)
+(* the critical section of self._disconnect_lock: the lock is held from the acquire to the end
+   of pre_disconnect (or to the `return` after a failed check) *)
+Definition in_cs (t : task) : bool := match t_pc t with PCheck _ | PMark _ => true | _ => false end.
+Definition at_acq (t : task) : bool := match t_pc t with PAcq _ => true | _ => false end.
+Fixpoint other_in_cs (l : list task) (i : nat) : bool :=
+  match l, i with
+  | [], _ => false
+  | _ :: r, O => existsb in_cs r
+  | t :: r, S j => in_cs t || other_in_cs r j
+  end.
+
+(* a schedule is a list of task indices; a finished or non-existent task is a no-op, and so is
+   (locked code) a task that wants the lock while another task holds it *)
 Definition step (g : gran) (R : list str) (c : cfg) (i : nat) : cfg * list lbl :=
   match nth_error (c_tasks c) i with
   | None => (c, [])
   | Some t =>
+      if locked_code g && at_acq t && other_in_cs (c_tasks c) i then (c, []) else
       let '(m, env, t', l) := move g R (c_mgr c) (c_env c) t in
       (mkCfg m env (upd (c_tasks c) i t') (c_log c ++ l), l)
   end.
@@ -237,11 +265,11 @@ Fixpoint trace (g : gran) (R : list str) (c : cfg) (sched : list nat) : list (li
   | i :: r => let '(c', l) := step g R c i in l :: trace g R c' r
   end.
 
-Definition init (m : mgr) (env : list str) (causes : list cause) : cfg :=
-  mkCfg m env (map spawn causes) [].
+Definition init (g : gran) (m : mgr) (env : list str) (causes : list cause) : cfg :=
+  mkCfg m env (map (spawn (locked_code g)) causes) [].
 Definition run_sched (g : gran) (R : list str) (causes : list cause) (sched : list nat)
            (m : mgr) (env : list str) : cfg :=
-  run g R (init m env causes) sched.
+  run g R (init g m env causes) sched.
 
 (* ---- observers ---- *)
 Definition done (t : task) : bool := match t_pc t with PDone => true | _ => false end.
@@ -300,7 +328,7 @@ Fixpoint no_double_check (g : gran) (R : list str) (c : cfg) (sched : list nat) 
 Definition in_flight (t : task) : bool :=
   match t_pc t with
   | PDone => false
-  | p => negb (match p, t_pc (spawn (t_cause t)) with
+  | p => negb (match p, t_pc (spawn false (t_cause t)) with
                | PInit, PInit | PLookup, PLookup => true
                | PCheck a, PCheck b => opt_eqb str_eqb a b
                | _, _ => false end)
